@@ -4,6 +4,7 @@ import ast
 import copy
 import hashlib
 import os
+import sys
 import itertools
 import z3
 from .values import *
@@ -15,6 +16,8 @@ _refs = itertools.count(1)
 # feasibility checks only prune (an `unknown` keeps the path), so a short budget is sound; refutations are fast, models of
 # sequence constraints are not
 FEAS_TIMEOUT_MS = int(os.environ.get("PYVC_FEAS_TIMEOUT_MS", "150"))
+FEAS_RLIMIT_PER_MS = int(os.environ.get("PYVC_FEAS_RLIMIT_PER_MS", "1200"))      # z3 resource units that take about one millisecond on the idle sandbox
+FEAS_BACKSTOP_FACTOR = int(os.environ.get("PYVC_FEAS_BACKSTOP_FACTOR", "200"))
 OUTCOME_FEAS_TIMEOUT_MS = int(os.environ.get("PYVC_OUTCOME_FEAS_TIMEOUT_MS", "40"))
 JOIN = os.environ.get("PYVC_JOIN", "1") == "1"
 MAX_STEPS = int(os.environ.get("PYVC_MAX_STEPS", "400000"))
@@ -273,7 +276,11 @@ class Engine:
     # ------------------------------------------------------------------------------------------------ solver helpers
     def feasible(self, st, extra=None, timeout=FEAS_TIMEOUT_MS):
         s = z3.Solver()
-        s.set("timeout", timeout)
+        # a RESOURCE limit decides which checks are given up (deterministic: the same paths are kept whether the machine is idle or busy); the wall-clock timeout is
+        # only a backstop.  (With a wall-clock budget alone, a loaded machine kept paths an idle one pruned, and once such an infeasible path ran into a construct
+        # outside the subset - a spurious UNDECIDED.)
+        s.set("rlimit", FEAS_RLIMIT_PER_MS * timeout)
+        s.set("timeout", FEAS_BACKSTOP_FACTOR * timeout)
         # cone of influence: only the conjuncts that (transitively) share a symbol with the condition can make it
         # infeasible (the rest of the path condition is consistent by construction and independent of it)
         qf = [c for c in st.pc if not _has_quantifier(c)]   # quantified axioms are left out: that can only keep more paths
@@ -303,6 +310,13 @@ class Engine:
         if extra is not None:
             s.add(extra)
         self.feas_checks += 1
+        if os.environ.get("PYVC_FEAS_STATS"):
+            import time as _t
+            t0 = _t.time()
+            r = s.check()
+            rl = [v for k, v in s.statistics() if k == "rlimit count"]
+            sys.stderr.write("FEAS %s %.3f %s %d %s\n" % (r, _t.time() - t0, rl[0] if rl else -1, timeout, s.reason_unknown() if r == z3.unknown else "-"))
+            return r != z3.unsat
         r = s.check()
         return r != z3.unsat
 
